@@ -112,13 +112,19 @@ def run(prog: Program, res: Result, tier: str) -> None:
     from ..normalform import canon, normal_form, returned
     from ..pathcond import guarded, holds, path_conditions, rejection
     nfn = normal_form(nh)
-    base_ = [e for e in nfn.effects if e.kind == "set" and e.target.startswith("$") and e.text() == canon("attrs.asdict(self)")]
+    base_ = [e for e in nfn.effects if e.kind == "set" and e.target.startswith("$") and e.text() in (canon("attrs.asdict(self)"), canon("dict(attrs.asdict(self))"))]
     okn = len(base_) == 1
     if okn:
         d_ = base_[0].target
         ups_ = nfn.calls(f"{d_}.update")
-        okn = len(ups_) == 1 and ups_[0].text() == f"{d_}.update(update_dict)" and \
-            [e.text() for e in nfn.returns()] == [canon("Header(**{key: value for key, value in NEW.items() if key in attrs.asdict(self)})").replace("NEW", d_)] and \
+        filt = "Header(**{key: value for key, value in NEW.items() if key in attrs.asdict(self)})"
+        good_rets = {canon(filt).replace("NEW", d_)}
+        # on the path without an update the untouched field dict may be used directly
+        untouched = {canon(filt).replace("NEW", "attrs.asdict(self)"), canon(filt).replace("NEW", "dict(attrs.asdict(self))")}
+        rets_ = nfn.returns()
+        okn = len(ups_) == 1 and ups_[0].text() == f"{d_}.update(update_dict)" and ups_[0].under("update_dict is not None") and bool(rets_) and \
+            all(e.text() in good_rets or (e.text() in untouched and e.under("update_dict is None")) for e in rets_) and \
+            any(e.text() in good_rets for e in rets_) and \
             not [e for e in nfn.effects if e.kind in ("set", "expr") and e is not base_[0] and e not in ups_ and d_ in (e.target or "") + e.text()[:len(d_) + 1]]
     (res.ok if okn else res.bad)("R3", nh, nh.node, "new_header = attrs.asdict(self) updated by the dict, filtered to fields, rebuilt"
                                  if okn else "new_header no longer builds the derived header from asdict + update", construct="new_header", key="new_header")
